@@ -12,13 +12,17 @@
 (***************************************************************************)
 EXTENDS FontCycleOps
 
-CONSTANTS GlyphCounts    \* set of glyph counts to draw from
+CONSTANTS GlyphCounts,   \* set of glyph counts to draw from
+          Focus          \* "random":    every field from its full domain (for -simulate)
+                         \* "layout":    exhaustive over outline kind x GSUB kind x GPOS kind x GDEF with rich script lists,
+                         \*              everything else at its default
+                         \* "onefactor": exhaustive, one scalar field at a time through its full domain (extremes
+                         \*              included) x outline kind, everything else at its default
 
 VARIABLES step, cfg
 vars == <<step, cfg>>
 
-NSteps == 25
-Empty == [wantdom |-> TRUE]
+NSteps == 34
 
 \* the abstract font of FontCycleOps that a configuration denotes
 Abs(c, fl) == [ fam |-> c.fam, width |-> c.width, weight |-> c.weight,
@@ -26,66 +30,112 @@ Abs(c, fl) == [ fam |-> c.fam, width |-> c.width, weight |-> c.weight,
                 angle |-> c.angle, ver |-> 65602,
                 created |-> IF c.times = "m" THEN "zero" ELSE IF c.frac THEN "t+ns" ELSE "t",
                 modified |-> IF c.times = "c" THEN "zero" ELSE IF c.frac THEN "t+ns" ELSE "t",
-                ul |-> IF c.frac THEN -263 ELSE -264,
+                ul |-> c.ulp,
                 kind |-> IF c.kind = "ttf" THEN "glyf" ELSE "cff" ]
 
 FlagSets == [1..6 -> BOOLEAN]
 
-Versions == { <<1, 0>>, <<1, 32768>>, <<2, 66>>, <<1, 4096>>, <<0, 65535>>, <<7, 64880>>, <<65534, 65503>>, <<300, 12345>> }
+\* 16.16 versions <<integer part, fraction>>: 0, around the three-decimal rounding, an exact tie, a carry, the largest
+\* value whose three decimals fit
+Versions == { <<0, 0>>, <<1, 0>>, <<1, 32768>>, <<2, 66>>, <<1, 4096>>, <<0, 65535>>, <<7, 64880>>, <<65534, 65503>>,
+              <<300, 12345>>, <<65535, 65503>> }
+\* instants <<hi, lo>>, Unix seconds = hi * 2^24 + lo: 1850, one second after the 1904 epoch of the head table,
+\* Unix 0, 2001, 2^31 - 1, 2^31, 2^32 - 1, year 9999
+Instants == { <<-226, 4825216>>, <<-125, 14307201>>, <<0, 0>>, <<59, 10144256>>, <<127, 16777215>>, <<128, 0>>,
+              <<255, 16777215>>, <<15103, 16007551>> }
 
-\* domain of field number i, given the fields chosen so far
-Field(i) == CASE i = 1  -> "wantdom" [] i = 2  -> "kind"   [] i = 3  -> "fds"    [] i = 4  -> "cmap"
-              [] i = 5  -> "comp"    [] i = 6  -> "names"  [] i = 7  -> "n"      [] i = 8  -> "gsub"
-              [] i = 9  -> "gpos"    [] i = 10 -> "gdef"   [] i = 11 -> "tags"   [] i = 12 -> "weight"
-              [] i = 13 -> "width"   [] i = 14 -> "angle"  [] i = 15 -> "fam"    [] i = 16 -> "times"
-              [] i = 17 -> "frac"    [] i = 18 -> "ver"    [] i = 19 -> "strs"   [] i = 20 -> "upm"
-              [] i = 21 -> "metric"  [] i = 22 -> "perm"   [] i = 23 -> "flags"  [] i = 24 -> "fin"
+Field(i) == CASE i = 1  -> "vary"    [] i = 2  -> "wantdom" [] i = 3  -> "kind"   [] i = 4  -> "fds"
+              [] i = 5  -> "cmap"    [] i = 6  -> "comp"    [] i = 7  -> "names"  [] i = 8  -> "n"
+              [] i = 9  -> "gsub"    [] i = 10 -> "gpos"    [] i = 11 -> "gdef"   [] i = 12 -> "tags"
+              [] i = 13 -> "scripts" [] i = 14 -> "weight"  [] i = 15 -> "width"  [] i = 16 -> "angle"
+              [] i = 17 -> "fam"     [] i = 18 -> "times"   [] i = 19 -> "tinst"  [] i = 20 -> "frac"
+              [] i = 21 -> "ver"     [] i = 22 -> "strs"    [] i = 23 -> "upm"    [] i = 24 -> "asc"
+              [] i = 25 -> "desc"    [] i = 26 -> "gap"     [] i = 27 -> "cap"    [] i = 28 -> "xh"
+              [] i = 29 -> "ulp"     [] i = 30 -> "ult"     [] i = 31 -> "perm"   [] i = 32 -> "flags"
+              [] i = 33 -> "fin"
+
+\* scalar fields of the font that "onefactor" takes through their domains
+Scalars == {"weight", "width", "angle", "fam", "times", "tinst", "ver", "strs", "upm", "asc", "desc", "gap", "cap",
+            "xh", "ulp", "ult", "perm", "cmap"}
+
+\* full domain of field number i, given the fields chosen so far
 Domain(i, c) ==
-  CASE i = 1  -> BOOLEAN
-    [] i = 2  -> {"ttf", "cff", "cid"}
-    [] i = 3  -> IF c.kind = "cid" THEN {1, 3} ELSE {1}
-    [] i = 4  -> {"4", "12", "none"}
-    [] i = 5  -> IF c.kind = "ttf" THEN {0, 1, 3} ELSE {0}
-    [] i = 6  -> IF c.kind = "ttf" THEN BOOLEAN ELSE {FALSE}
-    [] i = 7  -> GlyphCounts
-    [] i = 8  -> {"none", "liga", "multi"}
-    [] i = 9  -> {"none", "pair", "multi"}
-    [] i = 10 -> BOOLEAN
-    [] i = 11 -> IF c.gsub = "none" /\ c.gpos = "none" THEN {"x"}
+  CASE i = 1  -> IF Focus = "onefactor" THEN Scalars ELSE {"-"}
+    [] i = 2  -> BOOLEAN
+    [] i = 3  -> IF Focus = "random" THEN {"ttf", "cff", "cid"} ELSE {"ttf", "cff"}
+    [] i = 4  -> IF c.kind = "cid" THEN {1, 3} ELSE {1}
+    [] i = 5  -> {"4", "12", "none"}
+    [] i = 6  -> IF c.kind = "ttf" THEN {0, 1, 3} ELSE {0}
+    [] i = 7  -> IF c.kind = "ttf" THEN BOOLEAN ELSE {FALSE}
+    [] i = 8  -> GlyphCounts
+    [] i = 9  -> IF Focus = "layout" THEN {"liga", "multi"} ELSE {"none", "liga", "multi"}
+    [] i = 10 -> {"none", "pair", "multi"}
+    [] i = 11 -> BOOLEAN
+    [] i = 12 -> IF c.gsub = "none" /\ c.gpos = "none" THEN {"x"}
                  ELSE IF c.wantdom THEN {"x"} ELSE {"x", "noext", "ambig"}
-    [] i = 12 -> {0, 250, 400, 600, 650, 700, 800}
-    [] i = 13 -> {0, 3, 5, 9}
-    [] i = 14 -> {0, -12582912, 5, 1605, 9437184}
-    [] i = 15 -> {"plain", "bold", "italic", "semibold"}
-    [] i = 16 -> {"c", "m", "both"}
-    [] i = 17 -> BOOLEAN
-    [] i = 18 -> Versions
-    [] i = 19 -> {"ascii", "latin1", "bmp", "astral", "empty"}
-    [] i = 20 -> {1000, 2048}
-    [] i = 21 -> {"normal", "extreme"}
-    [] i = 22 -> 0..3
-    [] i = 23 -> {fl \in FlagSets : c.wantdom => InDom(Abs(c, fl))}
-    [] i = 24 -> {0}     \* one successor only: the terminal state (and its Emit) is reached once per behaviour
+    [] i = 13 -> IF c.tags = "x" THEN {"simple", "multi"} ELSE {"simple"}
+    [] i = 14 -> {0, 1, 250, 400, 600, 650, 700, 800, 1000}
+    [] i = 15 -> {0, 1, 3, 5, 9}
+    [] i = 16 -> {0, -12582912, 5, 1605, 9437184}
+    [] i = 17 -> {"plain", "bold", "italic", "semibold"}
+    [] i = 18 -> {"c", "m", "both"}
+    [] i = 19 -> Instants
+    [] i = 20 -> BOOLEAN
+    [] i = 21 -> Versions
+    [] i = 22 -> {"ascii", "latin1", "bmp", "astral", "empty"}
+    [] i = 23 -> {16, 1000, 2048, 16383, 16384}
+    [] i = 24 -> {-32768, 0, 800, 32767}
+    [] i = 25 -> {-32768, -200, 0, 32767}
+    [] i = 26 -> {-32768, 0, 90, 32767}
+    [] i = 27 -> {1, 700, 32767}
+    [] i = 28 -> {1, 500, 32767}
+    [] i = 29 -> {-131072, -400, -261, 0, 131068}      \* quarter units: -32768, -100, -65.25, 0, 32767
+    [] i = 30 -> {-200, 0, 200, 203, 131068}           \* quarter units: -50, 0, 50, 50.75, 32767
+    [] i = 31 -> 0..3
+    [] i = 32 -> {fl \in FlagSets : c.wantdom => InDom(Abs(c, fl))}
+    [] i = 33 -> {0}     \* one successor only: the terminal state (and its Emit) is reached once per behaviour
+
+Default(i, c) ==
+  CASE i = 1  -> "-"      [] i = 2  -> FALSE   [] i = 3  -> "ttf"   [] i = 4  -> 1
+    [] i = 5  -> "4"      [] i = 6  -> 0       [] i = 7  -> c.kind = "ttf"  [] i = 8 -> 30
+    [] i = 9  -> "liga"   [] i = 10 -> "pair"  [] i = 11 -> TRUE    [] i = 12 -> "x"
+    [] i = 13 -> IF Focus = "layout" THEN "multi" ELSE "simple"
+    [] i = 14 -> 400      [] i = 15 -> 5       [] i = 16 -> 0       [] i = 17 -> "plain"
+    [] i = 18 -> "both"   [] i = 19 -> <<59, 10144256>>             [] i = 20 -> FALSE
+    [] i = 21 -> <<1, 32768>>  [] i = 22 -> "ascii" [] i = 23 -> 1000 [] i = 24 -> 800
+    [] i = 25 -> -200     [] i = 26 -> 90      [] i = 27 -> 700     [] i = 28 -> 500
+    [] i = 29 -> -400     [] i = 30 -> 200     [] i = 31 -> 0
+    [] i = 32 -> [k \in 1..6 |-> k = 1]      \* regular
+    [] i = 33 -> 0
+
+Varied(i, c) ==
+  \/ Focus = "random"
+  \/ Focus = "layout" /\ Field(i) \in {"kind", "gsub", "gpos", "gdef"}
+  \/ Focus = "onefactor" /\ (Field(i) \in {"vary", "kind"} \/ Field(i) = c.vary)
+
+Choices(i, c) == IF Varied(i, c) THEN Domain(i, c) ELSE {Default(i, c)}
 
 Init == step = 1 /\ cfg = <<>>
 
 Pick == /\ step < NSteps
-        /\ \E v \in Domain(step, cfg) : cfg' = cfg @@ (Field(step) :> v)
+        /\ \E v \in Choices(step, cfg) : cfg' = cfg @@ (Field(step) :> v)
         /\ step' = step + 1
 Next == Pick
 Spec == Init /\ [][Next]_vars
 
 Done == step = NSteps
 Out(c) == [ kind |-> c.kind, fds |-> c.fds, cmap |-> c.cmap, comp |-> c.comp, names |-> c.names, n |-> c.n,
-            gsub |-> c.gsub, gpos |-> c.gpos, gdef |-> c.gdef, tags |-> c.tags,
+            gsub |-> c.gsub, gpos |-> c.gpos, gdef |-> c.gdef, tags |-> c.tags, scripts |-> c.scripts,
             reg |-> c.flags[1], bold |-> c.flags[2], ital |-> c.flags[3], obl |-> c.flags[4],
             serif |-> c.flags[5], script |-> c.flags[6],
             weight |-> c.weight, width |-> c.width, angle |-> c.angle, fam |-> c.fam, times |-> c.times,
+            t_hi |-> c.tinst[1], t_lo |-> c.tinst[2],
             frac |-> c.frac, ver_hi |-> c.ver[1], ver_lo |-> c.ver[2], strs |-> c.strs, upm |-> c.upm,
-            metric |-> c.metric, perm |-> c.perm,
+            asc |-> c.asc, desc |-> c.desc, gap |-> c.gap, cap |-> c.cap, xh |-> c.xh, ulp |-> c.ulp, ult |-> c.ult,
+            perm |-> c.perm, vary |-> c.vary,
             dom |-> InDom(Abs(c, c.flags)) ]
 Emit == Done => PrintT(<<"CASE", ToJson(Out(cfg))>>)
 
 \* the flag choice is never empty: every (weight, width, family, angle, kind) has consistent flags
-FlagsExist == step = 23 => Domain(23, cfg) # {}
+FlagsExist == step = 32 => Choices(32, cfg) # {}
 =============================================================================
